@@ -3,6 +3,7 @@ package main
 // C01 Dispatch: a route is chosen iff one admits the path, by the documented priority.
 
 import (
+	"go/constant"
 	"fmt"
 	"go/token"
 	"go/types"
@@ -354,8 +355,10 @@ func checkListNotStale(c *Check, fn *ssa.Function, s ssa.CallInstruction, oldV s
 		stale := ""
 		var walk func(b *ssa.BasicBlock, path []*ssa.BasicBlock, seen map[*ssa.BasicBlock]bool)
 		target := s.Block()
-		resolve := func(path []*ssa.BasicBlock) ssa.Value {
-			v := strip(oldV)
+		var resolveV func(path []*ssa.BasicBlock, v ssa.Value) ssa.Value
+		resolve := func(path []*ssa.BasicBlock) ssa.Value { return resolveV(path, oldV) }
+		resolveV = func(path []*ssa.BasicBlock, v0 ssa.Value) ssa.Value {
+			v := strip(v0)
 			for {
 				ph, ok := v.(*ssa.Phi)
 				if !ok {
@@ -407,7 +410,49 @@ func checkListNotStale(c *Check, fn *ssa.Function, s ssa.CallInstruction, oldV s
 				}
 				return
 			}
-			for _, nb := range b.Succs {
+			succs := b.Succs
+			// a branch on a flag whose value on this path is a known constant has one feasible side
+			if len(b.Instrs) > 0 {
+				if ifi, isIf := b.Instrs[len(b.Instrs)-1].(*ssa.If); isIf {
+					inner, pos := unNot(ifi.Cond)
+					if _, isPhi := inner.(*ssa.Phi); isPhi {
+						if cst, isC := resolveV(path, inner).(*ssa.Const); isC && cst.Value != nil && cst.Value.Kind() == constant.Bool {
+							if constant.BoolVal(cst.Value) == pos {
+								succs = b.Succs[:1]
+							} else {
+								succs = b.Succs[1:2]
+							}
+						}
+					}
+					// err != nil with err a φ whose value on this path is nil or a freshly made error
+					if bo, isB := inner.(*ssa.BinOp); isB && (bo.Op == token.NEQ || bo.Op == token.EQL) {
+						var x ssa.Value
+						if vNil(bo.Y) {
+							x = bo.X
+						} else if vNil(bo.X) {
+							x = bo.Y
+						}
+						if _, isPhi := x.(*ssa.Phi); isPhi {
+							rv := resolveV(path, x)
+							known, nonNil := false, false
+							if rv != nil && vNil(rv) {
+								known, nonNil = true, false
+							} else if rv != nil && madeErrorOnPath(path, rv) {
+								known, nonNil = true, true
+							}
+							if known {
+								t := nonNil == (bo.Op == token.NEQ)
+								if t == pos {
+									succs = b.Succs[:1]
+								} else {
+									succs = b.Succs[1:2]
+								}
+							}
+						}
+					}
+				}
+			}
+			for _, nb := range succs {
 				if seen[nb] {
 					continue
 				}
@@ -1009,4 +1054,39 @@ func growShiftSet(fn *ssa.Function, g *ssa.Call, isNew VM) (ssa.Value, bool) {
 		return nil, false
 	}
 	return idx, true
+}
+
+// madeErrorOnPath: v is a non-nil error on this path: errors.New / fmt.Errorf / errors.Errorf,
+// or errors.Wrap*(e, …) of an e whose non-nil edge lies on the path.
+func madeErrorOnPath(path []*ssa.BasicBlock, v ssa.Value) bool {
+	cl := asCall(v)
+	if cl == nil {
+		return false
+	}
+	switch callName(&cl.Call) {
+	case "errors.New", "fmt.Errorf", "github.com/pkg/errors.New", "github.com/pkg/errors.Errorf":
+		return true
+	case "github.com/pkg/errors.Wrap", "github.com/pkg/errors.Wrapf", "github.com/pkg/errors.WithMessage", "github.com/pkg/errors.WithStack":
+		e := cl.Call.Args[0]
+		for i := 0; i+1 < len(path); i++ {
+			b := path[i]
+			if len(b.Instrs) == 0 {
+				continue
+			}
+			ifi, ok := b.Instrs[len(b.Instrs)-1].(*ssa.If)
+			if !ok {
+				continue
+			}
+			if m, pos := cCmp(token.NEQ, vIs(e), vNil)(ifi.Cond); m {
+				idx := 1
+				if pos {
+					idx = 0
+				}
+				if b.Succs[idx] == path[i+1] {
+					return true
+				}
+			}
+		}
+	}
+	return false
 }
